@@ -469,6 +469,31 @@ pub fn mon_provider_args(case: &Case, rec: &Record, j: &Judged) -> Option<Violat
     None
 }
 
+/// The crate's lower-level route (feature `unstable`: from_request_parts → get_authenticator → validate_signature with the
+/// 15-minute tolerance) must agree with the entry point on outcome and on everything the key provider saw.
+#[cfg(feature = "unstable-api")]
+pub fn mon_direct_route(case: &Case, rec: &Record) -> Option<Violation> {
+    if matches!(rec.outcome, Outcome::NotBuilt(_) | Outcome::Panic { .. } | Outcome::Hung) {
+        return None;
+    }
+    let d = crate::exec::execute_direct(case, 900);
+    if d.outcome.digest() != rec.outcome.digest() || d.events != rec.events {
+        return Some(violation(
+            "direct-route",
+            "differs-from-entry-point",
+            format!("from_request_parts → get_authenticator → validate_signature(15 min) gives {} / {:?}; sigv4_validate_request gives {} / {:?}", d.outcome.brief(), d.events, rec.outcome.brief(), rec.events),
+            case,
+            None,
+        ));
+    }
+    None
+}
+
+#[cfg(not(feature = "unstable-api"))]
+pub fn mon_direct_route(_case: &Case, _rec: &Record) -> Option<Violation> {
+    None
+}
+
 pub fn kind_is(rec: &Record, k: Kind) -> bool {
     rec.outcome.err().map(|e| e.kind == k).unwrap_or(false)
 }
